@@ -415,6 +415,18 @@ class Interp:
             return r if t is ast.In else ops.b_not(r)
         if isinstance(a, T.LamTensor) or isinstance(b, T.LamTensor):
             return T.elementwise(lambda x, y: ops.compare(t, x, y), a, b, self.ctx, dtype="bool")
+        if t in (ast.Eq, ast.NotEq) and (hasattr(a, "eq_empty") or hasattr(b, "eq_empty")):
+            sv, other = (a, b) if hasattr(a, "eq_empty") else (b, a)
+            if isinstance(other, (set, frozenset)) and not other:
+                r = sv.eq_empty(self)
+                return r if t is ast.Eq else ops.b_not(r)
+            raise Unsupported("comparison of a symbolic set with a non-empty set")
+        if t in (ast.Eq, ast.NotEq) and (isinstance(a, SymSeq) or isinstance(b, SymSeq)):
+            sv, other = (a, b) if isinstance(a, SymSeq) else (b, a)
+            if isinstance(other, (tuple, list)) and not other:
+                r = ops.equal(sv.length, 0)
+                return r if t is ast.Eq else ops.b_not(r)
+            raise Unsupported("comparison of a symbolic-length sequence")
         if isinstance(a, Opaque) or isinstance(b, Opaque):
             return self.opaque_bool("compare", a, b, t.__name__)
         return ops.compare(t, a, b)
@@ -449,7 +461,7 @@ class Interp:
             return x in container
         if isinstance(container, str) and isinstance(x, str):
             return x in container
-        if isinstance(container, Opaque):
+        if isinstance(container, (Opaque, SymSeq)):
             return self.opaque_bool("contains", container, x, "in")
         if hasattr(container, "contains"):
             return container.contains(x)
@@ -497,6 +509,8 @@ class Interp:
             return z3.Length(v) > 0
         if isinstance(v, Inf):
             return True
+        if hasattr(v, "truth"):
+            return v.truth(self)
         raise Unsupported(f"truth value of {type(v).__name__}")
 
     # -- comprehensions ----------------------------------------------------
@@ -691,6 +705,10 @@ class Interp:
             # class-level attribute default
             return self.eval(member, Frame(mod, f"{mod.name}:{cls.name}"))
         spec = self.reg.classes.get(obj.cls)
+        if spec and spec.get("getattr_dict") and spec["getattr_dict"] in obj.fields:
+            d = obj.fields[spec["getattr_dict"]]
+            if isinstance(d, dict) and name in d:
+                return d[name]
         if spec and name in spec.get("lazy_fields", {}):
             v = self.reg.make_value(self, spec["lazy_fields"][name], f"{obj.cls}.{name}")
             obj.fields[name] = v
